@@ -226,7 +226,7 @@ class Element:
         outdict = {}
         for channel, signal in self._data.items():
             if "array" in signal.keys():
-                outdict[channel] = signal["array"]
+                outdict[channel] = dict(signal["array"])
                 if includetime and "time" not in signal["array"].keys():
                     N = len(signal["array"]["wfm"])
                     dur = N / signal["SR"]
